@@ -360,8 +360,12 @@ def judgeLine (s0 : JState) (line : String) : JState :=
       -- the object load_object() returns is the one find_object() finds under that name
       let s := if v != "?" && lv != "?" && (jOid lv).isSome && jOid lv != jOid v then
                  s.flag s!"load-find-disagree load_object returned o{(jOid lv).getD 0}, find_object finds {v}: {line}" else s
-      if v == "?" then s   -- the executing object was destructed meanwhile and could not name the result
-      else if (k == "1") != (jOid v).isSome then s.flag s!"found-destructed load returned an object that is not live: {line}" else s
+      -- typeof() of the efun result (k) against the value LPC reads from it (lv): "object" that reads as 0 = load_object
+      -- handed back a destructed object.  (k is compared with the LOAD result, not with what find_object finds: when the
+      -- object under construction is destructed inside its own create() chain and another object is created under the
+      -- name meanwhile, find_or_load_object rightly returns 0 although the name is findable.)
+      if lv == "?" then s   -- the executing object was destructed meanwhile and could not name the result
+      else if (k == "1") != (jOid lv).isSome then s.flag s!"found-destructed load returned an object that is not live: {line}" else s
     | ["r", "cl", _n, v] => useLive (stepEvent s) "cloned" line (jOid v)
     | ["r", "fo", _n, v, k] =>
       let s := stepEvent s
